@@ -17,11 +17,21 @@ CHECKS = {
    ref="DESIGN.md 4 C02",
    note=TB + " HMAC is a secure MAC; hmac.Equal compares whole slices.",
    tech="static analysis: must-pass-through / dominance, who-may-call, slice-span linear forms, error-discipline paths, E2 bounds prover"),
+ "C03": dict(cat="other",
+   text="Decides structural necessary conditions of the plain round trip on wire-slot tables from SSA (bit-provenance vectors for masks/shifts/byte order, linear forms for offsets, flow-insensitive buffer families on the encode side, token sequences for the stream-style EAP-AKA' codec): W subset-of R for every field bit and octet string of 27 records (spans normalised through the encoder's length slots), every field bit within the domain width emitted and stored, every field covered on both sides, dispatch bijections (16 payload types, 5 EAP methods), the generic-header chain rule, sibling agreement (IDi/IDr, TSi/TSr incl. the shared selector record per function), EAP-AKA' case sets and per-case token sequences. Value-level equality for arbitrary contents is not decided.",
+   ref="DESIGN.md 3.6, 4 C03",
+   note=TB + " Domain restrictions of the property (attribute types < 2^15, versions <= 15, vendor id < 2^24).",
+   tech="static analysis: wire-slot table extraction (bit provenance over SSA) and encoder/decoder table comparison"),
  "C04": dict(cat="proof",
    text="Every index, slice (against len, not cap), make, type assertion, division, map update, nil-merging dereference, external-callee precondition and loop in the functions reachable from the decode entry points is an obligation; all are discharged by a sound (incomplete) wrap-aware linear-arithmetic prover over dominating guards and by five loop-variant templates. Proof of the enumerated obligation classes, not of the standard library.",
    ref="DESIGN.md 3.3, 4 C04",
    note=TB + " Entry contracts: non-nil receivers, header parsed from the same bytes, IKESAKey nil or fully populated; Iv/Padding never assigned by non-test code.",
    tech="static analysis: SSA dataflow with wrap-aware linear forms, dominator facts, loop-variant templates"),
+ "C05": dict(cat="other",
+   text="Compares the encoder's and the decoder's wire-slot tables (extracted from SSA) with a reference layout transcribed independently from RFC 7296 section 3 / RFC 3748: W = spec and R = spec for every fixed-offset field (offset, width, byte order, mask), octet-string positions, length/count slots (carrying the final length), constants and 2/3/0 markers; reserved regions and the critical bit written and read by nobody; chain rule; transforms filed by type only. Symmetric encoder+decoder deviations, invisible to a round trip, are caught here. 'An independent parser recovers the fields' is replaced by table equality (necessary; sufficient for fixed-offset fields).",
+   ref="DESIGN.md 3.6, 4 C05",
+   note=TB + " spec/wire_layout.json is hand-transcribed from the RFCs (independent of the code, not of the author).",
+   tech="static analysis: wire-slot table extraction and comparison with an RFC reference table"),
  "C06": dict(cat="other",
    text="Decides the dataflow shape of protection, not byte-level interoperability: inner encoding of the original payload list -> encryptPayload -> placeholder of exactly L octets -> Reset + BuildEncrypted dominate the Encode whose result minus L octets is MAC'd -> MAC copied into the tail of the very payload the final Encode serialises -> nothing else changes afterwards; SK next-payload rule and the container's trailing-SK rule; sender-direction keys; Encrypt = IV|CBC(padded) with per-call random IV; PKCS7 pad count in [1,16] with pad length p-1; Decrypt strips last+1 and inspects no other pad octet (any legal padding accepted).",
    ref="DESIGN.md 4 C06",
@@ -52,11 +62,21 @@ CHECKS = {
    ref="DESIGN.md 3.7, 4 C11",
    note=TB + " Reference table transcribed from RFC 7296/3602/2403/2404/4868 and IANA; registries immutable after init (C18).",
    tech="static analysis: constant propagation over registry initialisers and descriptor methods, decision-tree enumeration, dominance rules"),
+ "C12": dict(cat="other",
+   text="Decides structural necessary conditions of decode/encode stability on the wire-slot tables: R subset-of W (nothing the decoder keeps is dropped or moved by re-encoding), no decode-only fields, every field bit emitted, W subset-of R for byte identity of canonical datagrams, length slots final, EAP-AKA' token alignment (only zero padding dropped) and sorted attribute iteration. The fixed-point claim for inputs with inconsistent counts is not decided.",
+   ref="DESIGN.md 3.6, 4 C12",
+   note=TB,
+   tech="static analysis: wire-slot table extraction and decoder/encoder table comparison, token-sequence comparison"),
  "C13": dict(cat="other",
    text="Decides the control structure that makes skipping sound: case constants and Type() methods of the 16 implementers are inverse bijections; the default arm continues exactly when bit 7 of octet 1 is clear (branch condition evaluated for all 256 octet values), with next-type/cursor updates structurally equal to the normal path and no append; the other edge returns a fresh error; the flags octet reaches no other branch and no payload decoder; progress and bounds of the walker by the E2 prover. Equality of decoded messages follows because the loop carries no other state; it is not separately derived.",
    ref="DESIGN.md 4 C13",
    note=TB,
    tech="static analysis: CFG/φ structure rules, dispatch-table extraction, finite-domain evaluation of a one-octet test, structural expression equality"),
+ "C14": dict(cat="other",
+   text="EAP framing: for the EAP header and Identity/Notification/Nak/Expanded bodies W subset-of R and both = RFC 3748 layout (final packet length, 24-bit vendor id, type octet constants checked by the decoders); Success/Failure are the bare 4-octet header on both sides; EAP-AKA': setter size guards by interval analysis along each case's storing path (RAND/AUTN/MAC 16, KDF 2, RES 4..16, bit length = 8*len), case sets, per-case token sequences, zero padding to the declared length, collect-then-sort iteration, setter stores an exact copy and GetValue returns it. The words/bits arithmetic is not decided.",
+   ref="DESIGN.md 3.6, 4 C14",
+   note=TB,
+   tech="static analysis: wire-slot tables, token-sequence extraction along success paths, interval analysis of guards, idiom recognition for map iteration"),
  "C15": dict(cat="other",
    text="Decides the shape of CalcEapAkaPrimeAtMAC (AT_MAC zeroed on the success edge dominating Marshal of the whole packet, fresh HMAC-SHA-256 under the key parameter, one Write of that encoding, Sum(nil)[:16], guarded type assertion by the E2 prover) and, for the receive path, whether re-serialisation can reproduce the received octets: the attribute container is a map emitted in sorted order, so attribute order is lost - reported as KNOWN-FINDING D15 (genuine, design-level). HMAC values are not decided.",
    ref="DESIGN.md 4 C15, 5 D15",
